@@ -440,6 +440,12 @@ func c10Run(c *core.Ctx, raw json.RawMessage) {
 		o := eng.Run(spec)
 		tag := fmt.Sprintf("op %d src=%s(%s,%d wals,%dB) zstd=%v base=%v split=%s fault=[%s]", opi, info.ID, sel.kind, info.NWALs, len(S), op.Zstd, op.Base, spec.Split.Mode, desc)
 		c.Log.Add("%s -> installed=%v err=%v send_err=%v payload=%d wire=%d fired=%v restored=%v", tag, o.Installed, errClass(o.InstallErr()), o.SendErr != nil, len(o.Payload), o.WireLen, o.WireFired, o.Restored)
+		for _, st := range o.Stray {
+			// not judged by C10 (nothing is installed by it); recorded: the receiving
+			// transport decoded left-over bytes of a rejected stream as another RPC
+			c.Probe("stray_rpc_decoded_from_leftover_bytes")
+			c.Log.Add("op %d stray rpc after the transfer: %s", opi, st)
+		}
 		c.Probe("transfers")
 		c.Probe("shape_" + sel.kind)
 		if op.Zstd {
@@ -474,6 +480,10 @@ func c10WireLen(eng *xfer.Engine, sel c10Src, c *core.Ctx, c10wl map[string]int6
 	defer d.Close()
 	time.Sleep(2 * time.Millisecond)
 	o := eng.Run(&xfer.Spec{Src: sel.st, ID: sel.info.ID, Dest: d, Zstd: true, Split: xfer.SplitPlan{Mode: "whole"}})
+	if !o.Installed || len(o.Stray) > 0 {
+		violate(c, "unfaulted-install-failed", "measuring transfer of %s (zstd, un-faulted) was not installed cleanly: %v stray=%v", sel.info.ID, errClass(o.InstallErr()), o.Stray)
+		return 0
+	}
 	c10wl[key] = o.WireLen
 	return o.WireLen
 }
@@ -518,6 +528,10 @@ func c10CheckUnfaulted(c *core.Ctx, tag string, info *xfer.SnapInfo, o *xfer.Out
 	got, _ := os.ReadFile(restoreTo)
 	if !bytes.Equal(got, info.Ref) {
 		violate(c, "unfaulted-content-differs", "%s: snapshot %s installed un-faulted restores to a different database: %s", tag, info.ID, c10DumpDiff(c, info, restoreTo))
+		return false
+	}
+	if len(o.Stray) > 0 {
+		violate(c, "unfaulted-stray-rpc", "%s: after an un-faulted transfer the receiving transport decoded further RPCs from the same connection: %v", tag, o.Stray)
 		return false
 	}
 	if o.SendErr != nil {
